@@ -21,6 +21,8 @@ pub struct Ctx {
     pub prop: String,
     pub tier: Tier,
     pub dispatch: String,
+    /// one extra level of depth for the history machines (thorough tier, one configuration)
+    pub deep: bool,
     pub counters: Mutex<BTreeMap<String, u64>>,
     pub samples: Mutex<Vec<Value>>,
     pub violations: Mutex<Vec<Value>>,
@@ -50,6 +52,7 @@ impl Ctx {
             prop: prop.to_string(),
             tier,
             dispatch: dispatch.to_string(),
+            deep: false,
             counters: Mutex::new(BTreeMap::new()),
             samples: Mutex::new(Vec::new()),
             violations: Mutex::new(Vec::new()),
